@@ -13,6 +13,8 @@ def _natural(d):
 for d in sorted(glob.glob(os.path.join(ROOT, "seeded", "*")), key=_natural):
   lab = os.path.basename(d)
   ev = json.load(open(os.path.join(d, "eval.json")))
+  if "reported_by_current_checks" not in ev:
+    continue      # evaluated, not yet booked (round in progress)
   first = ev.get("reported_by_at_first_evaluation", "")
   stats["n"] += 1
   if not first or first.startswith("exit 2"):
